@@ -6,6 +6,7 @@
 -/
 import Cosi.Driver.Store
 import Cosi.Driver.Watch
+import Cosi.Driver.WatchSrc
 import Cosi.Driver.Helpers
 import Cosi.Driver.Pipeline
 import Cosi.Driver.Ctrl
@@ -32,7 +33,7 @@ structure Engine where
 
 def engines : List (String × Engine) := [
   ("store-seq", ⟨Driver.Store.St, Driver.Store.init, Driver.Store.stepLine⟩),
-  ("watch", ⟨WSys, Driver.Watch.init, Driver.Watch.stepLine⟩),
+  ("watch", ⟨Driver.WatchSrc.St, Driver.WatchSrc.initSt, Driver.WatchSrc.stepSt⟩),
   ("helpers", ⟨Driver.Helpers.St, Driver.Helpers.init, Driver.Helpers.stepLine⟩),
   ("keystorage", ⟨Driver.KeyStorage.St, Driver.KeyStorage.init, Driver.KeyStorage.stepLine⟩),
   ("queue", ⟨Driver.Queue.St, Driver.Queue.init, Driver.Queue.stepQueue⟩),
